@@ -1017,8 +1017,11 @@ def _addv(r, v):
     return _add(r, v)
 
 
-def sum_(a, axis=None, keepdims=False, dtype=None):
+def sum_(a, axis=None, keepdims=False, dtype=None, where=None):
     a = _as(a)
+    if where is not None:
+        wv = broadcast_to(_as(where), a.shape).flat
+        a = ndarray.fresh([ite(w, v, 0.0 if a._dt in ("f8", "f4") else 0) for v, w in zip(a.flat, wv)], a.shape, a._dt)
     init = 0.0 if a._dt in ("f8", "f4") else 0
     return _reduce(a, axis, _addv, init, "i8" if a._dt == "b" else None, keepdims)
 
@@ -1094,20 +1097,25 @@ def _minf(r, v):
     return ite(v < r, v, r)
 
 
-def _ext(a, axis, f, initial, keepdims, name):
+def _ext(a, axis, f, initial, keepdims, name, where=None):
     a = _as(a)
+    if where is not None:
+        if initial is None:
+            raise ValueError("reduction operation '%s' does not have an identity, so to use a where mask one has to specify 'initial'" % name)
+        wv = broadcast_to(_as(where), a.shape).flat
+        a = ndarray.fresh([ite(w, v, _unbox(initial)) for v, w in zip(a.flat, wv)], a.shape, a._dt)
     n = a.size if axis is None else a.shape[axis]
     if n == 0 and initial is None:
         raise ValueError("zero-size array to reduction operation %s which has no identity" % name)
     return _reduce(a, axis, f, _unbox(initial) if initial is not None else None, keepdims=keepdims)
 
 
-def max_(a, axis=None, initial=None, keepdims=False):
-    return _ext(a, axis, _maxf, initial, keepdims, "maximum")
+def max_(a, axis=None, initial=None, keepdims=False, where=None):
+    return _ext(a, axis, _maxf, initial, keepdims, "maximum", where)
 
 
-def min_(a, axis=None, initial=None, keepdims=False):
-    return _ext(a, axis, _minf, initial, keepdims, "minimum")
+def min_(a, axis=None, initial=None, keepdims=False, where=None):
+    return _ext(a, axis, _minf, initial, keepdims, "minimum", where)
 
 
 max = max_
